@@ -2,9 +2,12 @@
 // Reads cases from stdin, prints one canonical line per operation (see lean/Drivers/C15.lean).
 //
 //   case <id> sig <int|void> [hook]   with `hook` there is no signal at first: the first operation must be
-//   hlisten <script>          a listener on signal<T>::hook_up(fn): its first co_await creates the signal, subscribes,
-//                             then passes the collector to fn (which stores it as handle 0)
-//   hlisten0 <script>         the same, but fn drops the collector: the signal is gone before the co_await returns
+//   hlisten <script> [e:<fl>:<v>]... [keep|drop]
+//                             a listener on signal<T>::hook_up(fn): its first co_await creates the signal, subscribes,
+//                             then passes the collector to fn.  fn calls the collector synchronously once per e-token
+//                             (a generator replaying its current value on registration), then stores the collector as
+//                             handle 0 (`keep`, default) or lets it go (`drop`: the signal is gone before the co_await returns)
+//   hlisten0 <script> ...     = hlisten ... drop
 //   listen <script>           coroutine listener; script over {r,g,x}: what it does after the 1st, 2nd ... value
 //                             (r = re-await at once, g = wait at a gate until `wake`, then re-await, x = leave);
 //                             "-" = empty script; after the script is used up the listener re-awaits for ever
@@ -246,23 +249,34 @@ struct Case {
             if (w.empty()) continue;
             std::string head;
             if (hook_pending && w[0] != "end") {
-                if (w[0] == "hlisten" && w.size() == 2) {
+                if ((w[0] == "hlisten" || w[0] == "hlisten0") && w.size() >= 2) {
+                    // registration program: e:<fl>:<v> = the registration function calls the collector synchronously
+                    // (suspend point discarded; we are inside the listener's await_suspend, i.e. in coroutine mode, so
+                    // the listener is only queued), then `keep` (default; `hlisten0`: `drop`) the collector
                     hook_pending = false;
+                    bool keep = w[0] == "hlisten";
+                    std::vector<tok> toks;
+                    for (std::size_t i = 2; i < w.size(); ++i) {
+                        if (w[i] == "keep") { keep = true; continue; }
+                        if (w[i] == "drop") { keep = false; continue; }
+                        auto p1 = w[i].find(':');
+                        auto p2 = w[i].find(':', p1 + 1);
+                        if (p1 == std::string::npos || p2 == std::string::npos) continue;
+                        toks.push_back({w[i][0], w[i].substr(p1 + 1, p2 - p1 - 1), atoi(w[i].substr(p2 + 1).c_str())});
+                    }
                     int id = next_id++;
                     std::string sc = w[1] == "-" ? std::string() : w[1];
-                    hook_listener<T>(cx, id, [this](col_t col) {
+                    std::string rels;
+                    if (!keep) handles.emplace_back(std::monostate{});
+                    hook_listener<T>(cx, id, [this, keep, toks, &rels](col_t col) {
                         em = sig_t(col).get_emitter();
-                        handles.emplace_back(std::move(col));
+                        for (auto &t : toks) {
+                            suspend_point<void> sp = call(col, t.fl, t.v);
+                            rels += (rels.empty() ? "" : ",") + std::to_string(sp.size());
+                        }
+                        if (keep) handles.emplace_back(std::move(col));
                     }, sc).detach();
-                    head = "hlisten L" + std::to_string(id);
-                } else if (w[0] == "hlisten0" && w.size() == 2) {
-                    // the registration function does not keep the collector: the signal dies inside the first co_await
-                    hook_pending = false;
-                    handles.emplace_back(std::monostate{});
-                    int id = next_id++;
-                    std::string sc = w[1] == "-" ? std::string() : w[1];
-                    hook_listener<T>(cx, id, [this](col_t col) { em = sig_t(col).get_emitter(); }, sc).detach();
-                    head = "hlisten0 L" + std::to_string(id);
+                    head = w[0] + " L" + std::to_string(id) + (rels.empty() ? "" : " rel=" + rels);
                 } else {
                     head = "bad-op";
                 }
